@@ -361,4 +361,32 @@ def rule_c(ctx):
     return r
 
 
-RULES = [rule_a, rule_b, rule_c]
+
+def rule_d(ctx):
+    r = RuleResult("C17-d", "a merged @media rule is hoisted past an enclosing @media only if *every* query of that enclosing rule is one of the merge sources "
+                   "(dart-sass: node.queries.every(mergedSources.contains)); otherwise the outer condition would be dropped")
+    prog = ctx.prog()
+    v = prog.one("evaluate::visitor::Visitor::visit_media_rule")
+    found = []
+    for cb in prog.closures_of(v):
+        for c in cb.calls():
+            t2 = an.tail2(c.callee)
+            if t2 in ("Iterator::all", "Iterator::any") and c.fn_args and "media::MediaQuery" in c.fn_args[0]:
+                # the predicate closure must test membership in the merge sources
+                inner = [x for x in prog.closures_of(cb)] + [x for x in prog.closures_of(v)]
+                tests_sources = any(any(an.tail2(ic.callee) in ("IndexSet::contains", "HashSet::contains", "BTreeSet::contains") for ic in ib.calls()) for ib in inner)
+                found.append((t2, tests_sources, c))
+    if not found:
+        raise AnchorMissing("visit_media_rule: the `through` predicate no longer iterates the enclosing rule's queries")
+    for t2, tests_sources, c in found:
+        key = "visit_media_rule|through|every-query-is-a-source"
+        if t2 == "Iterator::all" and tests_sources:
+            r.ok(key)
+        else:
+            r.violate(key, "the predicate that lets a merged rule pass an enclosing @media uses %s over the enclosing queries (membership test present: %s); it must hold for "
+                      "all of them, otherwise `@media not print, (min-width: 600px) {... @media (min-width: 600px), (color) {@media (orientation: landscape) {..}}}` loses its outer condition"
+                      % (t2, tests_sources), c.loc())
+    return r
+
+
+RULES = [rule_a, rule_b, rule_c, rule_d]
